@@ -76,3 +76,16 @@ Proof.
   apply fnv_from_inj in E; auto using step_range.
   apply step_inj_b in E; auto. apply (fnv_from_range h pre R).
 Qed.
+
+(** An evaluation-friendly form (the extracted oracle runs this one): reduction modulo 2^64 as a bit mask. *)
+Definition fnv_step_fast (h b : N) : N := N.land (N.lxor h b * fnv_prime) (N.ones 64).
+Definition fnv64a_fast (bs : list N) : N := fold_left fnv_step_fast bs fnv_offset.
+
+Lemma fnv_step_fast_eq h b : fnv_step_fast h b = fnv_step h b.
+Proof. unfold fnv_step_fast, fnv_step. rewrite N.land_ones. reflexivity. Qed.
+
+Lemma fnv64a_fast_eq bs : fnv64a_fast bs = fnv64a bs.
+Proof.
+  unfold fnv64a_fast, fnv64a, fnv_from. generalize fnv_offset.
+  induction bs as [|b bs IH]; intros h; simpl; [reflexivity|]. rewrite fnv_step_fast_eq. apply IH.
+Qed.
